@@ -104,21 +104,17 @@ def triggers(case):
                 out.add('selfjoin-elimination')
         if m['k'] == 'const' and m.get('ck', 'iri') == 'iri' and any(t['id'] == m['v'] for t in case['doc']):
             out.add('constant-equals-triples-map-id')
-    # quoted triples maps: a frame that already went through a join is joined again (parent_ columns overlap)
-    by_id = {t['id']: t for t in case['doc']}
-    def joins_in(tid, depth=0):
-        t = by_id.get(tid)
-        if t is None or depth > 6:
-            return 0
-        n = 0
+    # quoted triples maps with join conditions: a frame that already went through a join may be joined again (parent_
+    # columns overlap); the failure shape (exception text) is part of the recorded finding
+    nq = nqj = 0
+    for t in case['doc']:
         if t['subj']['k'] == 'quoted':
-            n += (1 if t.get('sjoins') else 0) + (joins_in(t['subj']['v'], depth + 1) if not t.get('sjoins') else 0)
+            nq += 1; nqj += 1 if t.get('sjoins') else 0
         for p in t.get('poms', []):
             for o in p['objs']:
                 if o['m']['k'] == 'quoted':
-                    n += (1 if o.get('joins') else 0) + (joins_in(o['m']['v'], depth + 1) if not o.get('joins') else 0)
-        return n
-    if any(joins_in(t['id']) >= 2 for t in case['doc']):
+                    nq += 1; nqj += 1 if o.get('joins') else 0
+    if nqj >= 1 and nq >= 2:
         out.add('star-repeated-join')
     for t in case['doc']:
         for p in t.get('poms', []):
